@@ -101,6 +101,17 @@ func (e *Engine) resolveType(text string) (types.Type, error) {
 	case "Time":
 		text = "time.Time"
 	}
+	if text == "time.Time" {
+		for _, imp := range e.tpkg.Imports() {
+			if imp.Path() == "time" {
+				if obj := imp.Scope().Lookup("Time"); obj != nil {
+					e.typeMem[text] = obj.Type()
+					e.typeMem["Time"] = obj.Type()
+					return obj.Type(), nil
+				}
+			}
+		}
+	}
 	tv, err := types.Eval(e.fset, e.tpkg, token.NoPos, text)
 	if err != nil {
 		// time may not be visible at NoPos scope for some files; try known imports
